@@ -114,9 +114,9 @@ int main (int argc, char **argv)
 	vh_init (argc, argv, "c07_write_determinism", "C07") ;
 	vh_enum_formats () ;
 	for (f = 0 ; f < vh_nfmts ; f++)
-	{	int chs [8], nch, format = vh_fmts [f].format ;
+	{	int chs [12], nch, format = vh_fmts [f].format ;
 		if (vh_fmts [f].major == SF_FORMAT_SD2) continue ;
-		nch = vh_channels_for (format, chs, 8, vh_thorough) ;
+		nch = vh_channels_for (format, chs, 12, vh_thorough) ;
 		for (c = 0 ; c < nch ; c++) for (k = 0 ; k < (vh_thorough ? 80 : 8) ; k++)
 		{	JOB j ; long i, items ; int B ;
 			if (chs [c] > 17 && k > 0) continue ;
